@@ -60,7 +60,7 @@ func (c *configLoader) Load(config any) error {
 		return err
 	}
 
-	loadAndMergeConfig := func(loadConfig func() (*koanf.Koanf, error)) error {
+	loadAndMergeConfig := func(loadConfig func() (*koanf.Koanf, error), adjust func(val any) any) error {
 		konf, err := loadConfig()
 		if err != nil {
 			return err
@@ -71,7 +71,7 @@ func (c *configLoader) Load(config any) error {
 			nil,
 			koanf.WithMergeFunc(func(src, dest map[string]any) error {
 				for key, val := range src {
-					dest[key] = merge(dest[key], val)
+					dest[key] = merge(dest[key], adjust(val))
 				}
 
 				return nil
@@ -81,14 +81,14 @@ func (c *configLoader) Load(config any) error {
 	if len(configFile) != 0 {
 		if err := loadAndMergeConfig(func() (*koanf.Koanf, error) {
 			return koanfFromYaml(configFile)
-		}); err != nil {
+		}, func(val any) any { return val }); err != nil {
 			return err
 		}
 	}
 
 	if err := loadAndMergeConfig(func() (*koanf.Koanf, error) {
 		return koanfFromEnv(c.o.envPrefix)
-	}); err != nil {
+	}, expand); err != nil {
 		return err
 	}
 
